@@ -131,8 +131,17 @@ class Ctx:
         except OSError:
             pass
         t = time.time()
+        modflags = []
+        if REPO != "/repo":
+            # developer option (VERIF_REPO=<scratch worktree>): judge a candidate change without touching
+            # /repo -- same harness sources, the replace directive points at the worktree
+            mod = open(os.path.join(HARNESS, "go.mod")).read().replace("=> /repo", "=> " + REPO)
+            modfile = os.path.join(self.scratch, "alt.mod")
+            open(modfile, "w").write(mod)
+            shutil.copyfile(os.path.join(REPO, "go.sum"), os.path.join(self.scratch, "alt.sum"))
+            modflags = ["-modfile=" + modfile]
         p = subprocess.run(
-            ["go", "build", "-tags", "verif", "-o", out, "./cmd/vdrive"],
+            ["go", "build"] + modflags + ["-tags", "verif", "-o", out, "./cmd/vdrive"],
             cwd=HARNESS, env=env, stdout=subprocess.PIPE, stderr=subprocess.STDOUT, text=True,
         )
         if p.returncode != 0:
@@ -336,8 +345,9 @@ class Ctx:
             "wall_s": round(time.time() - self.t0, 2),
             "violations": len(self.violations),
         }
-        os.makedirs(os.path.join(VERIF, "evidence"), exist_ok=True)
-        path = os.path.join(VERIF, "evidence", "%s.json" % self.prop)
+        evdir = os.path.join(VERIF, "evidence") if REPO == "/repo" else "/tmp/verif-alt-evidence"
+        os.makedirs(evdir, exist_ok=True)
+        path = os.path.join(evdir, "%s.json" % self.prop)
         with open(path + ".tmp", "w") as f:
             json.dump(ev, f, indent=1, sort_keys=True)
         os.replace(path + ".tmp", path)
@@ -433,6 +443,7 @@ def validate_all(ctx, module, cfg, trace_path, describe=None, max_rejections=8, 
     total = len(traces)
     rejected = 0
     accepted = 0
+    good = []
     rounds = 0
     while True:
         rounds += 1
@@ -463,6 +474,7 @@ def validate_all(ctx, module, cfg, trace_path, describe=None, max_rejections=8, 
         # sub-traces are independent (every one starts with a Reset): the ones before the rejected
         # sub-trace are accepted, only the ones after it are validated again
         accepted += idx
+        good.extend(traces[:idx])
         bad = traces[idx]
         traces = traces[idx + 1:]
         rel = line - n  # 1-based line inside the sub-trace
@@ -485,6 +497,13 @@ def validate_all(ctx, module, cfg, trace_path, describe=None, max_rejections=8, 
             ctx.log("too many rejected traces; stopping validation")
             break
     ctx.traces += (accepted + len(traces)) if rejected < max_rejections else accepted
+    if rejected < max_rejections:
+        good.extend(traces)
+    # the accepted sub-traces, for binding self-tests and coverage runs
+    ctx.accepted_path = os.path.join(ctx.scratch, "acc-%s-%d.ndjson" % (module, len(ctx.legs)))
+    with open(ctx.accepted_path, "w") as f:
+        for t in good:
+            f.write("".join(t))
     return total - rejected
 
 
